@@ -1123,11 +1123,18 @@ def oracle_ice2(case, ops, obs):
             return (taint[0], taint[1] + "; then: " + msg, i)
         return (key, msg, i)
 
+    prev_src = prev_size = 0
     for i, (op, ob) in enumerate(zip(ops, obs)):
         t = op[0]
         if probe is not None:
             probe["maxpos"] = max(probe["maxpos"], ob["pos"])
         short_seen = ob["short"]
+        if t == "download" and taint is None and case["meta"] > case["block"] and not ob["spin"] \
+                and ob["src"] > prev_src and ob["size"] - prev_size < case["meta"] and ob["rem"] == 0:
+            # a whole meta interval was read from the body after fits(BLOCK_SIZE), but the buffer had room for less
+            taint = (ICE_KEY, "download at op %d: fits(BLOCK_SIZE=%d) was checked but a chunk of %d bytes (icy-metaint) was "
+                     "add()ed and only %d were stored (buffer full)" % (i, case["block"], case["meta"], ob["size"] - prev_size))
+        prev_src, prev_size = ob["src"], ob["size"]
         if case["meta"] and short_seen and taint is None:
             taint = (OVERREAD_KEY, "op %d: a raw.read() in ICY mode returned fewer bytes than asked for; _readall asks for "
                      "the full size again, returns more than it was asked for and the framing is lost" % i)
